@@ -35,7 +35,19 @@ class C10(Prop):
     level_note = ("Lean kernel + standard axioms; hand-written models of readlines (universal newlines), splitlines, "
                   "strip; urlopen on a file: URL is byte-transparent; os.path is not modelled (base name and extension "
                   "are inputs)")
-    theorems = []
+    theorems = [
+        "PrefVerif.C10.strip_invariant",
+        "PrefVerif.C10.space_invariant_ord",
+        "PrefVerif.C10.space_invariant_cat",
+        "PrefVerif.C10.space_invariant_mat",
+        "PrefVerif.C10.entry_points_agree",
+        "PrefVerif.C10.get_dispatch",
+        "PrefVerif.C10.header_only_ord",
+        "PrefVerif.C10.header_only_cat",
+        "PrefVerif.C10.header_only_mat",
+        "PrefVerif.C10.type_gate",
+        "PrefVerif.C10.unknown_extension",
+    ]
     rule = ("contents written by the real writers from random ordinal / categorical / matching instances, each "
             "re-rendered with random per-line padding, one of LF/CRLF/CR and extra spaces; all four entry points x "
             "header_only in {False, True}; all 6 extensions x 3 classes for the gate; non-trivial = content with >= 2 "
